@@ -103,6 +103,80 @@ fn bomb(mib: usize) -> Vec<u8> {
     e.finish().unwrap()
 }
 
+/// the memory account of Codec.tla with the concrete constants: the decoded machine takes at most
+/// `amp` times its encoding (the cheapest state encodes in `per` bytes and occupies
+/// size_of::<State>() bytes), a growing Vec holds old and new storage at once (factor 2), and
+/// the base64-decoded bytes, the fixed inflate buffer and the decoder's copy are one MAX each
+fn memory_budget() -> i64 {
+    use enum_map::enum_map;
+    let plain = || maybenot::state::State::new(enum_map! { _ => vec![] });
+    let mk = |n: usize| Machine { allowed_padding_packets: 0, max_padding_frac: 0.0, allowed_blocked_microsec: 0, max_blocking_frac: 0.0,
+                                  states: (0..n).map(|_| plain()).collect() };
+    let per = (enc_size(&mk(2)) - enc_size(&mk(1))).max(1);
+    let amp = (std::mem::size_of::<maybenot::state::State>() as u64 + per - 1) / per;
+    ((2 * amp + 3) * maybenot::constants::MAX_DECOMPRESSED_SIZE as u64) as i64
+}
+
+fn enc_size(m: &Machine) -> u64 {
+    use bincode::Options;
+    bincode::DefaultOptions::new().serialized_size(m).unwrap_or(u64::MAX)
+}
+
+/// a valid machine whose encoding has exactly `target` bytes (the size limit is inclusive:
+/// the abstract input `expands = MAX` of Codec.tla): many minimal states, the remainder
+/// filled by the variable-length budgets and by single transitions
+fn machine_of_size(target: u64) -> Option<Machine> {
+    use enum_map::enum_map;
+    use maybenot::event::Event;
+    use maybenot::state::{State, Trans};
+    let plain = || State::new(enum_map! { _ => vec![] });
+    // knobs: n states, the two budgets (variable-length integers), states with one transition,
+    // states with a counter update (an odd number of bytes)
+    let mk = |n: usize, pad: u64, blk: u64, with_trans: usize, with_ctr: usize| -> Machine {
+        let mut states: Vec<State> = (0..n).map(|_| plain()).collect();
+        for s in states.iter_mut().take(with_trans) {
+            *s = State::new(enum_map! { Event::NormalSent => vec![Trans(0, 1.0)], _ => vec![] });
+        }
+        for s in states.iter_mut().rev().take(with_ctr) {
+            s.counter.0 = Some(maybenot::counter::Counter { operation: maybenot::counter::Operation::Increment, dist: None, copy: false });
+        }
+        Machine { allowed_padding_packets: pad, max_padding_frac: 0.0, allowed_blocked_microsec: blk, max_blocking_frac: 0.0, states }
+    };
+    let s1 = enc_size(&mk(1, 0, 0, 0, 0));
+    let per = enc_size(&mk(2, 0, 0, 0, 0)) - s1;
+    if target < s1 + 8 * per {
+        return None;
+    }
+    let n0 = ((target - s1) / per + 1) as usize;
+    let budgets = [0u64, 1000, 100_000, u64::MAX];
+    for n in (n0.saturating_sub(4)..=n0).rev() {
+        for pad in budgets {
+            for blk in budgets {
+                let base = enc_size(&mk(n, pad, blk, 0, 0));
+                if base > target {
+                    continue;
+                }
+                let d1 = enc_size(&mk(n, pad, blk, 1, 0)) - base;
+                let d2 = enc_size(&mk(n, pad, blk, 0, 1)) - base;
+                let gap = target - base;
+                for y in 0..4u64 {
+                    if d1 > 0 && gap >= y * d2 && (gap - y * d2) % d1 == 0 {
+                        let x = ((gap - y * d2) / d1) as usize;
+                        if x + (y as usize) > n {
+                            continue;
+                        }
+                        let m = mk(n, pad, blk, x, y as usize);
+                        if enc_size(&m) == target && m.validate().is_ok() {
+                            return Some(m);
+                        }
+                    }
+                }
+            }
+        }
+    }
+    None
+}
+
 fn main() {
     let args: Vec<String> = std::env::args().collect();
     let seed: u64 = arg(&args, "--seed").and_then(|s| s.parse().ok()).unwrap_or(1);
@@ -111,6 +185,7 @@ fn main() {
     let out = arg(&args, "--out").expect("--out");
     std::panic::set_hook(Box::new(|_| {}));
     let mut f = std::io::BufWriter::new(std::fs::File::create(&out).unwrap());
+    let budget = memory_budget();
     let mut g = grng(seed ^ 0xc0dec);
     // (a) valid machines
     let mut machines: Vec<Machine> = Vec::new();
@@ -150,6 +225,19 @@ fn main() {
             }
         }
     }
+    // encodings of exactly the limit and just below it (the limit is inclusive)
+    let lim = maybenot::constants::MAX_DECOMPRESSED_SIZE as u64;
+    let mut at_limit = 0u64;
+    for target in [lim, lim - 1, lim - 2, lim - 7, lim / 2] {
+        if let Some(m) = machine_of_size(target) {
+            machines.push(m);
+            at_limit += 1;
+        }
+    }
+    if at_limit < 3 {
+        eprintln!("codec_cases: could not build machines at the size limit");
+        std::process::exit(2);
+    }
     for (a, b) in [(f64::MAX, f64::MIN_POSITIVE), (-0.0, 5e-324), (1e308, -1e308), (f64::INFINITY, f64::NAN)] {
         let mut m = gen_machine(&mut g, false).to_machine_unchecked();
         m.allowed_padding_packets = u64::MAX;
@@ -184,10 +272,10 @@ fn main() {
         }));
         match r {
             Err(_) => writeln!(f, "{}", json!({"k": "rt", "panic": true, "ok": false, "same_string": false, "same_name": false,
-                                               "revalidates": false, "same_actions": false, "len": 0, "peak": 0, "states": m.states.len()})).unwrap(),
+                                               "revalidates": false, "same_actions": false, "len": 0, "peak": 0, "budget": budget, "states": m.states.len()})).unwrap(),
             Ok((ok, ss, sn, rv, sa, len, peak, s1)) => {
                 writeln!(f, "{}", json!({"k": "rt", "panic": false, "ok": ok, "same_string": ss, "same_name": sn, "revalidates": rv,
-                                         "same_actions": sa, "len": len, "peak": peak, "states": m.states.len()})).unwrap();
+                                         "same_actions": sa, "len": len, "peak": peak, "budget": budget, "states": m.states.len()})).unwrap();
                 max_len = max_len.max(len);
                 max_peak = max_peak.max(peak);
                 if strings.len() < 60 || m.states.len() >= 1000 {
@@ -321,11 +409,11 @@ fn main() {
             Ok(Ok(v)) => (false, "ok", v),
         };
         max_peak = max_peak.max(peak);
-        writeln!(f, "{}", json!({"k": "hostile", "parser": parser, "kind": kind, "len": input.len(), "result": result,
+        writeln!(f, "{}", json!({"k": "hostile", "parser": parser, "kind": kind, "len": input.len(), "result": result, "budget": budget,
                                  "revalidates": revalidates, "panic": panic, "peak": peak})).unwrap();
         n_hostile += 1;
     }
     f.flush().unwrap();
     println!("{}", json!({"round_trips": n_rt, "hostile": n_hostile, "max_string_len": max_len, "max_peak_bytes": max_peak,
-                          "skipped_beyond_size_limit": skipped_too_big}));
+                          "skipped_beyond_size_limit": skipped_too_big, "machines_at_size_limit": at_limit, "memory_budget": budget}));
 }
